@@ -120,6 +120,7 @@ def assignment_requests(ctx, deep):
                                 drv.send(f"op 0 {','.join(map(str, par)) if par else '-'}")
                             for (o, t) in pf:
                                 drv.send(f"trans 0 {o} {t}")
+                            ist0 = "".join(STATES[S.index(rt.operator_states[x])] for x in ops)
                             try:
                                 Assignment(ops=[ops[i] for i in lst], cpu=1, ram=1, priority=Priority.BATCH_PIPELINE, pool_id=0, pipeline_id="p", is_resume=resume)
                                 ok = True
@@ -132,11 +133,22 @@ def assignment_requests(ctx, deep):
                             ctx.coverage["evaluations"] += 1
                             hist = [sum(1 for x in ops if rt.operator_states[x] == s_) for s_ in S]
                             case = {"dag": dag, "prefix": pf, "assignment": lst, "is_resume": resume}
-                            if ok != m["ok"] or ist != m["st"][0] or icnt != m["cnt"][0] or icnt != hist:
+                            # what the PROPERTY fixes: the verdict (a list with an operator that may not become ASSIGNED at its turn -- wrong state, or a
+                            # second time in the same list -- is refused, any other accepted); after an acceptance every listed operator is ASSIGNED and
+                            # nothing else moved; always: counts = histogram, and a COMPLETED operator stays COMPLETED.  What becomes of the *other* operators
+                            # of a refused list is not fixed by the property (the code leaves the ones before the refusal ASSIGNED): a difference there
+                            # breaks the correspondence, not the property
+                            comp_moved = [k for k, ch in enumerate(ist0) if ch == "C" and ist[k] != "C"]
+                            if ok != m["ok"] or icnt != hist or comp_moved or (ok and (ist != m["st"][0] or icnt != m["cnt"][0])):
                                 what = (f"Assignment(ops={lst}, is_resume={resume}) after the requests {pf} on the DAG {dag}: "
-                                        f"{'accepted' if ok else 'refused'}, states {ist}, counts {icnt}; the state machine says "
+                                        f"{'accepted' if ok else 'refused'}, states {ist0} -> {ist}, counts {icnt}; the state machine says "
                                         f"{'accepted' if m['ok'] else 'refused'}, states {m['st'][0]}, counts {m['cnt'][0]}")
                                 ctx.violations.append({"what": what, "layer": "status", "assign_case": case, "sig": {"clause": "assignment-constructor"}})
+                                return
+                            if ist != m["st"][0] or icnt != m["cnt"][0]:
+                                if len(ctx.unproved) < 3:
+                                    ctx.unproved.append({"kind": "correspondence", "component": "Assignment.__init__ (state left behind by a refused list)",
+                                                         "case": case, "impl": [ok, ist, icnt], "model": m})
                                 return
     finally:
         drv.close()
